@@ -145,10 +145,11 @@ const (
 	c18I128
 	c18Byte
 	c18Raw
+	c18U128
 	c18NumKinds
 )
 
-var c18KindName = [...]string{"u8", "u16", "u32", "u64", "i16", "i32", "i64", "bool", "varuint", "varbytes", "string", "address", "hash", "i128", "byte", "raw"}
+var c18KindName = [...]string{"u8", "u16", "u32", "u64", "i16", "i32", "i64", "bool", "varuint", "varbytes", "string", "address", "hash", "i128", "byte", "raw", "u128"}
 
 type c18Item struct {
 	kind int
@@ -229,7 +230,7 @@ func c18GenItem(t *rapid.T) c18Item {
 		it.b = c18GenFixed(t, 20)
 	case c18Hash:
 		it.b = c18GenFixed(t, 32)
-	case c18I128:
+	case c18I128, c18U128:
 		it.b = c18GenFixed(t, 16)
 	case c18Raw:
 		it.b = rapid.SliceOfN(rapid.Byte(), 0, 12).Draw(t, "raw")
@@ -326,6 +327,10 @@ func c18SinkWrite(s *common.ZeroCopySink, it c18Item) error {
 		s.WriteI128(i)
 	case c18Raw:
 		s.WriteBytes(it.b)
+	case c18U128:
+		var u common.U128
+		copy(u[:], it.b)
+		s.WriteU128(u)
 	}
 	return nil
 }
@@ -487,7 +492,7 @@ func c18SourceRead(src *common.ZeroCopySource, it c18Item, useReadAPI bool) erro
 		if eof || !bytes.Equal(v[:], it.b) {
 			return bad(harn.Hex(v[:]), eof, false)
 		}
-	case c18Raw:
+	case c18Raw, c18U128: // the source has no NextU128; a U128 is 16 raw little-endian bytes
 		v, eof := src.NextBytes(uint64(len(it.b)))
 		if eof || !bytes.Equal(v, it.b) {
 			return bad(harn.Hex(v), eof, false)
@@ -585,7 +590,7 @@ func c18Stack() string {
 
 func c18NoPanic(t *rapid.T, what string, f func()) { guard(t, what, f) }
 
-const c18Rule = "typed value sequences (ints at 0/sign/max edges, varuints around 0xFC/0xFFFF/2^32/2^64, var-bytes with length 0/0xFC/0xFD/0xFFFF/0x10000, address/hash/I128) written by ZeroCopySink and common/serialization; hand-built minimal and non-minimal varuint prefixes; arbitrary/structured bytes with a byte-coded read script (Next*/Read*/Skip/BackUp<=pos, huge counts); non-trivial = a varuint or length within 2 of a size-class boundary, a non-minimal prefix, a truncated read, or a script step that hits eof/irregular/overflowing count; distinct = different value sequence / bytes+script"
+const c18Rule = "typed value sequences (ints at 0/sign/max edges, varuints around 0xFC/0xFFFF/2^32/2^64, var-bytes with length 0/0xFC/0xFD/0xFFFF/0x10000, address/hash/I128) written by ZeroCopySink and common/serialization; hand-built minimal and non-minimal varuint prefixes; arbitrary/structured bytes with a byte-coded read script (Next*/Read*/Skip/BackUp<=pos, huge counts); non-trivial = a varuint or length within 2 of a size-class boundary, a non-minimal prefix, a truncated read, or a script step that hits eof/irregular/overflowing count; distinct = different value sequence / bytes+script || sink reuse: every typed sequence is also written by every Write* method (incl. WriteU128, NextBytes) into sinks whose backing memory is dirty — (a) filled with 0xFF/0x01/pattern/bit-inverted bytes and Reset() (1-2 rounds), (b) junk written after any item and BackUp()ed (optionally further back over already written items, which are then rewritten), (c) NewZeroCopySink(dirty[:p]) over a caller-supplied dirty buffer with spare capacity, and combinations — and must give the bytes of the fresh sink and read back without eof/irregular; non-trivial there = at least one item was written over stale bytes that differ from its encoding"
 
 func TestC18_TypedRoundTrip(t *testing.T) {
 	ev := harn.For("C18").Rule(c18Rule)
@@ -699,6 +704,263 @@ func TestC18_TypedRoundTrip(t *testing.T) {
 			ev.Class("item:" + c18KindName[it.kind])
 		}
 		ev.Case(hasEdge || truncated, fmt.Sprintf("typed trunc=%v [%s]", truncated, strings.Join(desc, " ")))
+	})
+}
+
+// ---------------------------------------------------------------------------------------------
+// sink reuse: what the encoder emits must not depend on what its backing memory held before. The
+// node reuses sinks (core/types/transaction.go temp.Reset(), ledgerstore state_store.go value.Reset())
+// and hands caller-supplied buffers to NewZeroCopySink; WriteVarUint itself reserves 9 bytes and
+// backs up, so bytes beyond Size() are routinely non-zero.
+
+// c18Backing exposes the sink's whole backing array (also the bytes beyond Size()).
+func c18Backing(s *common.ZeroCopySink) []byte { b := s.Bytes(); return b[:cap(b)] }
+
+// c18GenDirt draws n stale bytes: all 0xFF, all 0x01 (reads back as a regular `true`), one repeated
+// non-zero byte, an arithmetic pattern, or the bit-inverse of what is going to be written there.
+func c18GenDirt(t *rapid.T, n int, at int, ref []byte, label string) []byte {
+	out := make([]byte, n)
+	kind := rapid.IntRange(0, 4).Draw(t, label+"Kind")
+	a, s := rapid.Byte().Draw(t, label+"A"), rapid.Byte().Draw(t, label+"S")
+	for i := range out {
+		switch kind {
+		case 0:
+			out[i] = 0xFF
+		case 1:
+			out[i] = 0x01
+		case 2:
+			out[i] = a | 1
+		case 3:
+			out[i] = a + byte(i)*s
+		default:
+			out[i] = 0xFF
+			if at+i >= 0 && at+i < len(ref) {
+				out[i] = ^ref[at+i]
+			}
+		}
+	}
+	return out
+}
+
+// c18GenFillLen draws how many dirty bytes to lay down when `need` bytes are going to be written.
+func c18GenFillLen(t *rapid.T, need int, label string) int {
+	switch rapid.IntRange(0, 5).Draw(t, label+"LenKind") {
+	case 0, 1:
+		return need + 9 // also covers the 9-byte scratch area of WriteVarUint
+	case 2:
+		return need
+	case 3:
+		return need + rapid.IntRange(0, 40).Draw(t, label+"Extra")
+	case 4:
+		return need / 2
+	}
+	return rapid.IntRange(0, 64).Draw(t, label+"Len")
+}
+
+// c18PutJunk appends junk to the sink through one of the write paths.
+func c18PutJunk(t *rapid.T, s *common.ZeroCopySink, junk []byte, label string) {
+	switch rapid.IntRange(0, 2).Draw(t, label+"Via") {
+	case 0:
+		s.WriteBytes(junk)
+	case 1:
+		copy(s.NextBytes(uint64(len(junk))), junk)
+	default: // byte by byte / word by word through the typed writers
+		for len(junk) >= 8 {
+			s.WriteUint64(binary.LittleEndian.Uint64(junk))
+			junk = junk[8:]
+		}
+		for _, b := range junk {
+			s.WriteByte(b)
+		}
+	}
+}
+
+// c18ReuseRun writes items into a sink prepared by the named prologue, with junk+BackUp episodes,
+// and compares with ref. It returns whether some item was written over differing stale bytes.
+func c18ReuseRun(t *rapid.T, ev *harn.Collector, prologue string, items []c18Item, ref []byte, ends []uint64) (overStale bool, desc string) {
+	var sink *common.ZeroCopySink
+	var prefix []byte
+	newSink := func() *common.ZeroCopySink {
+		if rapid.Bool().Draw(t, prologue+"Tiny") {
+			return common.NewZeroCopySink(make([]byte, 0, rapid.IntRange(0, 16).Draw(t, prologue+"Cap")))
+		}
+		return common.NewZeroCopySink(nil)
+	}
+	switch prologue {
+	case "reset":
+		sink = newSink()
+		rounds := rapid.IntRange(1, 2).Draw(t, "rounds")
+		for r := 0; r < rounds; r++ {
+			fill := c18GenFillLen(t, len(ref), "fill")
+			c18PutJunk(t, sink, c18GenDirt(t, fill, 0, ref, "fill"), "fill")
+			if sink.Size() != uint64(fill) {
+				t.Fatalf("sink.Size() = %d after writing %d bytes", sink.Size(), fill)
+			}
+			sink.Reset()
+			if sink.Size() != 0 || len(sink.Bytes()) != 0 {
+				t.Fatalf("sink.Size() = %d, len(Bytes()) = %d after Reset()", sink.Size(), len(sink.Bytes()))
+			}
+			desc += fmt.Sprintf(" fill%d", fill)
+		}
+	case "caller":
+		c := c18GenFillLen(t, len(ref), "buf")
+		p := 0
+		if c > 0 && rapid.IntRange(0, 2).Draw(t, "hasPrefix") == 0 {
+			p = rapid.IntRange(1, c).Draw(t, "prefix")
+			if p > 8 {
+				p = 8
+			}
+		}
+		dirty := c18GenDirt(t, c, -p, ref, "buf")
+		prefix = append([]byte{}, dirty[:p]...)
+		sink = common.NewZeroCopySink(dirty[:p])
+		desc += fmt.Sprintf(" cap%d prefix%d", c, p)
+	default: // "backup": fresh memory, dirt comes from the episodes only
+		sink = newSink()
+	}
+	p := uint64(len(prefix))
+	// junk+BackUp episodes: after item k-1, junk is written and backed up to the end of item j-1 (j <= k)
+	episodes := map[int]bool{}
+	nEp := rapid.IntRange(0, 1).Draw(t, prologue+"Episodes")
+	if prologue == "backup" {
+		nEp = rapid.IntRange(1, 2).Draw(t, prologue+"Episodes2")
+	}
+	for i := 0; i < nEp; i++ {
+		episodes[rapid.IntRange(0, len(items)).Draw(t, prologue+"At")] = true
+	}
+	end := func(i int) uint64 { // end offset of item i-1 in ref
+		if i == 0 {
+			return 0
+		}
+		return ends[i-1]
+	}
+	episode := func(k int) int {
+		rem := len(ref) - int(end(k))
+		n := c18GenFillLen(t, rem, "junk")
+		if n == 0 {
+			n = 1
+		}
+		c18PutJunk(t, sink, c18GenDirt(t, n, int(end(k)), ref, "junk"), "junk")
+		j := k
+		if k > 0 && rapid.IntRange(0, 2).Draw(t, "further") == 0 {
+			j = rapid.IntRange(0, k).Draw(t, "backTo")
+		}
+		back := uint64(n) + end(k) - end(j)
+		sink.BackUp(back)
+		if sink.Size() != p+end(j) {
+			t.Fatalf("[%s] sink.Size() = %d after BackUp(%d) from %d", prologue, sink.Size(), back, p+end(k)+uint64(n))
+		}
+		desc += fmt.Sprintf(" junk%d@%d->%d", n, k, j)
+		return j
+	}
+	for i := 0; i <= len(items); {
+		if episodes[i] {
+			delete(episodes, i)
+			i = episode(i)
+			continue
+		}
+		if i == len(items) {
+			break
+		}
+		it := items[i]
+		// does this write land on stale bytes that differ from what must be written?
+		bk, pos, enc := c18Backing(sink), int(sink.Size()), c18RefEncode(it)
+		stale := false
+		for j := range enc {
+			if pos+j < len(bk) && bk[pos+j] != 0 && bk[pos+j] != enc[j] {
+				stale = true
+			}
+		}
+		if err := c18SinkWrite(sink, it); err != nil {
+			t.Fatalf("[%s] %v", prologue, err)
+		}
+		if sink.Size() != p+ends[i] {
+			t.Fatalf("[%s] sink.Size() = %d after item %d (%s), reference %d", prologue, sink.Size(), i, it, p+ends[i])
+		}
+		ev.Class("reuse:item:" + c18KindName[it.kind])
+		if stale {
+			overStale = true
+			ev.Class("reuse:item:" + c18KindName[it.kind] + ":over-stale")
+		}
+		i++
+	}
+	got := sink.Bytes()
+	want := append(append([]byte{}, prefix...), ref...)
+	if !bytes.Equal(got, want) {
+		at := 0
+		for at < len(got) && at < len(want) && got[at] == want[at] {
+			at++
+		}
+		k := 0
+		for k < len(ends)-1 && p+ends[k] <= uint64(at) {
+			k++
+		}
+		t.Fatalf("sink with dirty backing memory [%s%s] encodes differently from a fresh sink: first difference at byte %d (item %d, %s)\n dirty sink %x\n fresh sink %x\n items %v",
+			prologue, desc, at, k, items[k], got, want, items)
+	}
+	src := common.NewZeroCopySource(append([]byte{}, got[p:]...))
+	for i, it := range items {
+		if err := c18SourceRead(src, it, false); err != nil {
+			t.Fatalf("[%s%s] %v; encoded %x", prologue, desc, err, got[p:])
+		}
+		if src.Pos() != ends[i] {
+			t.Fatalf("[%s%s] after item %d (%s): Pos=%d, reference cursor %d", prologue, desc, i, it, src.Pos(), ends[i])
+		}
+	}
+	if src.Len() != 0 {
+		t.Fatalf("[%s%s] %d bytes left after reading all items back", prologue, desc, src.Len())
+	}
+	return overStale, prologue + desc
+}
+
+// TestC18_SinkReuse: ZeroCopySink output is a function of the written values only.
+func TestC18_SinkReuse(t *testing.T) {
+	ev := harn.For("C18").Rule(c18Rule)
+	ev.Floor("reuse:over-stale", "reuse", 0.60)
+	for _, k := range c18KindName {
+		ev.Floor("reuse:item:"+k+":over-stale", "reuse:item:"+k, 0.25)
+	}
+	harn.Check(t, 5000, 250000, func(t *rapid.T) {
+		n := rapid.IntRange(1, 12).Draw(t, "n")
+		items := make([]c18Item, n)
+		var ref []byte
+		ends := make([]uint64, n)
+		for i := range items {
+			items[i] = c18GenItem(t)
+			ref = append(ref, c18RefEncode(items[i])...)
+			ends[i] = uint64(len(ref))
+		}
+		over := false
+		var descs []string
+		c18NoPanic(t, "sink reuse", func() {
+			fresh := common.NewZeroCopySink(nil)
+			for _, it := range items {
+				if err := c18SinkWrite(fresh, it); err != nil {
+					t.Fatalf("%v", err)
+				}
+			}
+			if !bytes.Equal(fresh.Bytes(), ref) {
+				t.Fatalf("fresh ZeroCopySink encoding differs from reference:\n sink %x\n ref  %x\n items %v", fresh.Bytes(), ref, items)
+			}
+			for _, prologue := range []string{"reset", "backup", "caller"} {
+				o, d := c18ReuseRun(t, ev, prologue, items, ref, ends)
+				over = over || o
+				descs = append(descs, d)
+				ev.Class("reuse:variant:" + prologue)
+				if o {
+					ev.Class("reuse:variant:" + prologue + ":over-stale")
+				}
+			}
+		})
+		ev.Class("reuse")
+		if over {
+			ev.Class("reuse:over-stale")
+		}
+		desc := make([]string, len(items))
+		for i, it := range items {
+			desc[i] = it.String()
+		}
+		ev.Case(over, fmt.Sprintf("reuse {%s} [%s]", strings.Join(descs, " | "), strings.Join(desc, " ")))
 	})
 }
 
